@@ -15,7 +15,7 @@ REPLAY_BOUNDS = {
     'cnf': 'Cnf::eval / is_sat_partial on 7 clause lists (incl. empty list, empty clause, duplicate and complementary literals) x all total and one-hole partial assignments of 3 variables; 300 seeded random PartialModel set/unset sequences; Cnf::condition on the 7 lists x 6 literals and 300 seeded random CNFs over 4 variables (all assignments); Cnf::wmc in FiniteField<1000000007> on the 7 lists x 2 weight vectors and 300 random CNFs/weights against the explicit sum',
     'order': 'VarOrder::new on every permutation of 0..4 variables, each extended 0-2 times with new_last; linear_order / force_order / min_fill_order on 202 CNFs over 1-6 variables: bijection between labels and levels',
     'compile': 'compile_cnf / collapse_clauses on 8 fixed clause lists x 6 orders and 600 seeded random CNFs; compile_logical_expr / compile_plan on 600 seeded random expressions of depth <= 4 over 3 variables; compile_cnf_with_assignments against compile-then-condition_model (same pointer) on 8 lists x 6 orders x 5 partial assignments and 600 random; BottomUpPlan::from_dtree(DTree::from_cnf) + compile_plan on 600 random CNFs; CompressionSddBuilder compile_cnf / compile_logical_expr / compile_plan under all 12 vtrees over 3 variables (8 fixed lists + 400 random CNFs and expressions) and 4 vtrees over 4 variables (100 random CNFs), evaluated by a structural walk of the SDD',
-    'dtree': 'DTree::from_cnf + VTree::from_dtree on 500 seeded random CNFs over 2-5 variables (every variable occurs) with random elimination orders: leaves = clauses, vars = union of children, cutset formula, vtree leaves = CNF variables',
+    'dtree': 'DTree::from_cnf + VTree::from_dtree on 10 fixed CNFs with independent components / unused labels and 700 seeded random CNFs over 2-6 variables (half connected through one clause over all variables, half arbitrary) with random elimination orders over 0..largest label: leaves = clauses, vars = union of children, cutset formula, vtree leaves = CNF variables',
     'poly': 'Polynomial<FiniteField<U32_TINY>>: 403 pairs of polynomials with 0..33 coefficients (seeded random), + and * against the schoolbook definition',
 }
 
@@ -152,7 +152,7 @@ prop('C05',
      ])
 
 prop('C02',
-     units=['ptr', 'bottomup', 'builder', 'robdd', 'table'],
+     units=['ptr', 'bottomup', 'builder', 'robdd', 'table', 'canonthm'],
      kani=[{'name': 'k_next_power_of_two_ge'}],
      assumptions=[A_VERUS, A_EXTRACT, A_PTREQ, A_CELL, A_TERM, A_CLONE,
                   'A-bump: bumpalo::Bump::alloc returns a reference to a value equal to its argument that is never moved, freed or mutated while the arena lives',
@@ -160,14 +160,14 @@ prop('C02',
                   'A-cap: node count < usize::MAX and capacity < 2^62; usize::next_power_of_two returns a value >= its argument',
                   'A-eq: `==` on table elements is an equivalence relation (std::cmp::Eq contract)',
                   'A-hash (table): UniqueTable::get_or_insert hashes the element with FxHasher (external crate) and calls get_or_insert_by_hash(hash, elem, false); the hash is an arbitrary u64 in the proof, so every collision pattern is covered',
-                  'A-canon: the ROBDD canonicity theorem (ordered + reduced + complement-normalised + hash-consed => equal functions are the same node) is cited, not mechanised; reference identity itself is not expressible in Verus (a `&T` is its value) -- what is proved are the premises'],
+                  'A-addr: reference identity is not expressible in Verus (a `&T` is its value), so in the model two structurally equal nodes ARE one node (pointer equality is reflexive on values). That structurally equal nodes share an address in the running program is the operational content of the lookup-completeness contract proved for the real table (unit table: a matching stored element is returned, never a second copy) applied bottom-up; this last induction over construction histories is argued, not mechanised. The canonicity theorem itself (ordered + canon + same function => same diagram) IS mechanised: unit canonthm'],
      replay={'table': 'table', '*': 'bdd'},
      explanation='shape: get_or_insert / ite_helper / cond_with_alloc / condition_essential and every public operation built on them return diagrams that respect the variable order (`ordered`) and, given canonical arguments, '
                  'are canonical (`canon`: no complemented or false high edge, children not the same pointer) -- clauses tagged #C02 plus the untagged order clauses.  hash-consing: the REAL robin-hood table code (propagate, grow, get_or_insert_by_hash) '
                  'is proved to keep the robin-hood invariant wfl (stored probe length = true displacement; no gaps in probe chains) for every capacity, every hash sequence and any number of growths, to keep exactly the stored (pointer, hash) pairs across grow, '
-                 'and get_or_insert_by_hash is proved to return a reference that was ALREADY stored whenever a matching element is present (no second copy), otherwise to store exactly one new entry',
+                 'and get_or_insert_by_hash is proved to return a reference that was ALREADY stored whenever a matching element is present (no second copy), otherwise to store exactly one new entry.  canonicity theorem (unit canonthm, spec-level): two diagrams that are ordered for the same order, canonical and denote the same function are equal, and therefore eq() <=> same function; each of the three conjuncts of `canon` is necessary for the proof (checked by deleting it)',
      not_covered=[
-         'the "if and only if" itself (equal function <=> pointer-equal): needs reference identity and the cited canonicity theorem (A-canon)',
+         'the "if and only if" is proved inside the model only (unit canonthm: lemma_eq_iff_same_function, for diagrams satisfying `ordered` and `canon`, which is what every operation is proved to return); its transfer to machine addresses rests on A-addr',
          'get_by_hash (used only by the semantic-hash builders), BackedRobinhoodTable::new / iter',
          'BddNode Hash impl consistency with PartialEq (hash is an arbitrary function in the proof; only lookup COMPLETENESS for one hash value per element is proved, so `Hash` must be a function of (var, low, high): A-hash)',
          'apply-cache evictions: by C16/C01 the cache cannot change results',
